@@ -1,7 +1,9 @@
 #!/bin/bash
 # runs every thorough check once, sequentially; prints one summary line per check (used through `vp run`)
+# optional arguments: the property numbers to run, in order (default: all)
 cd "$(dirname "$0")/.."
-for i in 01 02 03 04 05 06 07 08 09 10 11 12 13 14 15 16 17 18 19 20; do
+ids="${@:-01 02 03 04 05 06 07 08 09 10 11 12 13 14 15 16 17 18 19 20}"
+for i in $ids; do
   s=$(date +%s); ./check C$i --tier thorough > thorough_C$i.txt 2>&1; rc=$?; e=$(date +%s)
-  echo "C$i exit=$rc $((e-s))s violations=$(grep -c '^VIOLATION' thorough_C$i.txt) $(grep -E 'TOOL-ERROR' thorough_C$i.txt | head -1 | cut -c1-200)"
+  echo "C$i exit=$rc $((e-s))s violations=$(grep -c '^VIOLATION' thorough_C$i.txt) known=$(grep -c '^KNOWN-FINDING' thorough_C$i.txt) $(grep -E 'TOOL-ERROR' thorough_C$i.txt | head -1 | cut -c1-200)"
 done
